@@ -4,17 +4,16 @@ _SH = [None, None, 'two', None]      # most executions unconfined (media I/O + 1
 _T = dict(quick=900, thorough=1800)  # generous: the machine is shared, verdicts never depend on time
 
 
-def _run(flavor, q, t, section=None, shapes=_SH):
-    return dict(harness='h_cache', flavor=flavor, execs=dict(quick=q, thorough=t), timeout=_T, shapes=shapes,
-                cfg=dict(section=section) if section else {})
+def _run(flavor, q, t, harness='h_cache', shapes=_SH):
+    return dict(harness=harness, flavor=flavor, execs=dict(quick=q, thorough=t), timeout=_T, shapes=shapes, cfg={})
 
 
 CHECK = dict(
         runs=[_run('asan', 6, 36), _run('tsan', 4, 20), _run('plain', 12, 72),
-              # targeted probes (each has its own signature prefix; all are deterministic, single purpose):
-              _run('asan', 1, 2, 'bigiov', [None]),       # preadv with 28..64 segments
-              _run('plain', 2, 4, 'trimpast', [None]),    # to-end trim at an aligned offset past EOF, then directory reuse
-              _run('asan', 1, 2, 'relrace', [None])],     # last release of a store vs. the store cache's expiry timer
+              # targeted probes (h_cache.cpp built with a fixed section, so each has its own execution identity):
+              _run('asan', 1, 2, 'h_cache_bigiov', [None]),       # preadv with 64 segments
+              _run('plain', 2, 4, 'h_cache_trimpast', [None]),    # to-end trim at an aligned offset past EOF, then directory reuse
+              _run('asan', 1, 2, 'h_cache_relrace', [None])],     # last release of a store vs. the store cache's expiry timer
         par=6,
         level='exploration',
         rule='one evaluation = one seeded execution (fresh process): the real new_full_file_cached_fs over a scratch localfs media '
